@@ -22,3 +22,6 @@ package common
 // Type syntax is a function of the type and the namespace (the model is not modified).
 //@ func TypeSyntax
 //@   pure
+
+// Output and diagnostics may not depend on the iteration order of a Go map (C12): decided per `range` over a map.
+//@ map-order C12 package
